@@ -9,7 +9,10 @@
    variables, printed text, printed flag, the two bookkeeping depths) | XErr e | XFuel, so an
    equation between them is "same stack, same text, same variables and register, same error,
    same out-of-fuel".  `core_program` (Model/Values.v) fixes what is quantified over: number
-   literals, the 37 core elements, variables and function definitions at top level (not inside
+   literals and string literals (back-quoted, two-character, character, compressed; printable
+   ASCII without escape pairs), the 37 core elements with their number / string / list overloads
+   (Values.add_s ... not_s and the element table: + - * N › ‹ d ¬ = < > J L h t f Ṙ ∑ on strings,
+   M F ṡ v ƒ ɖ and for over the characters of a string, a string is true when non-empty), variables and function definitions at top level (not inside
    a def, where Python would create a local), if / for / while, the lambdas λ ƛ ' µ and the
    shorthands ⁽ ‡ ≬, named functions with numeric, named and `*` parameters, list literals, the
    modifiers v & ~ ß ƒ ɖ ₌ ₍; early exits: X in a for / while body (through ifs) = break, X in a
@@ -17,7 +20,7 @@
    x in a for body = continue, x in a plain lambda = recursion, x as the operand of a modifier = call
    of the function the modifier is used in, x at top level = print the stack.  A nested def does not
    read a named parameter of an enclosing function (Python would use a closure cell).  NOT in the core (no statement is made): string
-   / character / compressed literals, the ghost variable and `_` names, assignments inside a def,
+   literals with escapes or non-ASCII text, compressed numbers, the ghost variable and `_` names, assignments inside a def,
    triadic modifiers, and -- by the decidable guards Values.break_core / recurse_core / recurse_ok --
    the early exits whose emitted line is not what the documents say: X / x in a while CONDITION
    (known finding C02-exit-in-while-condition), X in a map / filter / sort lambda, a named function,
@@ -128,3 +131,15 @@ Theorem C01_guard_examples :
   /\ core_of [955; 118; 43; 120; 59]%N = Some false.                      (* λv+x; *)
 Proof. exact guard_examples. Qed.
 Print Assumptions C01_guard_examples.
+
+(* strings: a for loop over the characters of a string, concatenation, the string "0" is true; + over a list
+   of a string and a number, printed back-quoted inside the list *)
+Theorem C01_example_strings :
+  (exists p s, parse_source ex_src_str1 = Ok p /\ core_program p = true
+    /\ run_machine FlNone 12 [] p = XOk s /\ run_ref FlNone 12 [] p = XOk s
+    /\ stk s = [] /\ out s = text [[97; 33]; [98; 33]; [121; 101; 115]]%N)
+  /\ (exists p s, parse_source ex_src_str2 = Ok p /\ core_program p = true
+    /\ run_machine FlNone 12 [] p = XOk s /\ run_ref FlNone 12 [] p = XOk s
+    /\ stk s = [] /\ out s = text [[10216; 32; 96; 97; 98; 96; 32; 124; 32; 96; 49; 98; 96; 32; 10217]]%N).
+Proof. exact example_strings. Qed.
+Print Assumptions C01_example_strings.
